@@ -45,6 +45,30 @@ fn check(p: &APacket, case: &mut Case) -> Result<(), Fail> {
     Ok(())
 }
 
+/// the same round trip for packets assembled through the text / map / setter based constructors
+fn check_alt(input: &super::c04::AltIn, case: &mut Case) -> Result<(), Fail> {
+    let text = super::c04::alt_text(input);
+    let alpn = vec!["h2".to_string(), "http/1.1".to_string()];
+    let pk = super::c04::build_alt(input, &text, &alpn).map_err(|f| Fail::new("c02:constructor-failed", f.msg))?;
+    case.nontrivial = text.len() > 254 || !input.2.is_empty();
+    let mut model = lib("observe", || observe(&pk))?;
+    // an empty TXT is one empty string on the wire (documented aliasing)
+    for r in model.answers.iter_mut() {
+        if let ARData::Typed { code: 16, fields } = &mut r.rdata {
+            if let Val::Strs(v) = &mut fields[0] {
+                if v.is_empty() {
+                    v.push(Bytes(vec![]));
+                }
+            }
+        }
+    }
+    let bytes = lib("build_bytes_vec", || pk.build_bytes_vec())?.map_err(|e| Fail::new("c02:build-failed", format!("build_bytes_vec: {:?}", e)))?;
+    let back = parse(&bytes)?.map_err(|e| Fail::new("c02:unparseable", format!("output of build_bytes_vec rejected: {:?} (text of {} bytes)", e, text.len())))?;
+    let o = lib("observe", || observe(&back))?;
+    ensure!(o == model, "c02:mismatch", "parsed packet differs from what was built (text of {} bytes): {}", text.len(), diff(&model, &o));
+    Ok(())
+}
+
 fn strategy(t: Tier) -> BoxedStrategy<APacket> {
     gen::apacket(t.pick(4, 6))
 }
@@ -52,18 +76,27 @@ fn strategy(t: Tier) -> BoxedStrategy<APacket> {
 pub fn def() -> CheckDef {
     CheckDef {
         id: "C02",
-        rule: "proptest: abstract packets over every typed RDATA variant, unknown and empty RDATA, 5 classes, supported QTYPEs + IXFR/AXFR/MAILB/MAILA/ANY, binary labels 1..=63, names <= 255 incl. root, boundary-biased integers, 0..n entries per section, optional EDNS, named opcode/rcode, all flag subsets; built through public constructors, serialised uncompressed, parsed, observed field by field. Non-trivial = >= 1 question or record; distinct by hash of the abstract packet",
+        rule: "proptest: abstract packets over every typed RDATA variant, unknown and empty RDATA, 5 classes, supported QTYPEs + IXFR/AXFR/MAILB/MAILA/ANY, binary labels 1..=63, names <= 255 incl. root, boundary-biased integers, 0..n entries per section, optional EDNS, named opcode/rcode, all flag subsets; built through public constructors, serialised uncompressed, parsed, observed field by field. A second section assembles packets through the other public constructors (TXT::try_from(&str) around multiples of 254 bytes, TXT::try_from(HashMap), with_string, SVCB/HTTPS setters, A/AAAA from std addresses, CharacterString::try_from) and requires the parsed packet to show what the built one shows. Non-trivial = >= 1 question or record; distinct by hash of the abstract packet",
         assumptions: vec![
             "excluded by construction (wire-level aliasing or documented misuse): TXT without strings, NULL with empty data or a typed code, OPT pushed into additional_records, rcode > 15 without EDNS, Reserved opcode/rcode, LOC version != 0, unsorted NSEC windows, character strings > 255, empty labels, labels > 63",
             "observation uses the read-only byte hooks Label::verif_bytes / CharacterString::verif_bytes / TXT::verif_strings",
         ],
-        sections: vec![Box::new(PropSection {
-            name: "roundtrip",
-            rule: "build -> build_bytes_vec -> parse -> observe == model",
-            strategy,
-            cases: (300_000, 4_000_000),
-            check,
-        })],
+        sections: vec![
+            Box::new(PropSection {
+                name: "roundtrip",
+                rule: "build -> build_bytes_vec -> parse -> observe == model",
+                strategy,
+                cases: (300_000, 4_000_000),
+                check,
+            }),
+            Box::new(PropSection {
+                name: "constructors",
+                rule: "text / map / setter based constructors -> build_bytes_vec -> parse -> same observation",
+                strategy: super::c04::alt_strategy,
+                cases: (60_000, 600_000),
+                check: check_alt,
+            }),
+        ],
     }
 }
 
